@@ -45,13 +45,21 @@ CONFIGS = {
                             kw=dict(fragment_masses={'M': 10, 'E': 2}, terminal_bonds=['$T', '$E'],
                                     polymer_reactivities={'<': 0.3, '>': 0.4, '$T': 0.3, '$E': 0.0},
                                     fragment_reactivities={'$T': {'$E': 1.0, '$T': 0.0}, '$E': {'$T': 1.0}}), aa=False),
+    # all-atom fragments together with user-supplied masses
+    'aa_with_masses': dict(frags='{#PEO=[$]COC[$],#E=[$]C}', kw=dict(fragment_masses={'PEO': 44, 'E': 15}, polymer_reactivities={'$': 1.0}),
+                           aa=True, sym_mass=True),
+    # one node with the same descriptor three times
+    'star_core': dict(frags='{#S=[#C][>][>][>],#A=[<][#X][>]}', kw=dict(fragment_masses={'S': 12, 'A': 5},
+                                                                        polymer_reactivities={'>': 0.7, '<': 0.3}), aa=False),
+    # atoms annotated with weights (the weight is not a mass)
+    'weighted_atoms': dict(frags='{#PP=[<][C;w=0.5]C[C;w=0.5][>],#Q=[<]O[>]}', kw=dict(polymer_reactivities={'>': 0.5, '<': 0.5}), aa=True),
     'double_bond_link': dict(frags='{#E=[$]=CC=[$],#T=[$]=C}', kw=dict(polymer_reactivities={'$2': 1.0}), aa=True),
     'cg_terminal': dict(frags='{#test=[<][#A][#B][#C][>][$A],#ter=[$B][#D]}',
                         kw=dict(fragment_masses={'test': 10, 'ter': 3}, terminal_bonds=['$A', '$B'],
                                 polymer_reactivities={'<': 0.3, '>': 0.3, '$A': 0.4, '$B': 0.0},
                                 fragment_reactivities={'$A': {'$A': 0.0, '$B': 1.0}, '$B': {'$A': 1.0, '$B': 0.0}}), aa=False),
 }
-QUICK = ['peo_linear', 'copolymer_labels', 'brush_terminal', 'cg_dextran', 'cg_terminal', 'cg_two_frags_orders', 'missing_key', 'table_with_foreign_keys', 'double_terminal']
+QUICK = ['peo_linear', 'copolymer_labels', 'brush_terminal', 'cg_dextran', 'cg_terminal', 'cg_two_frags_orders', 'missing_key', 'table_with_foreign_keys', 'double_terminal', 'aa_with_masses', 'star_core', 'weighted_atoms']
 
 
 class NoChoice(Exception):
@@ -355,6 +363,44 @@ def wellformed_clauses(shape, o):
         open_left = [x for n in mem for x in (nodes[n].get('bonding') or [])]
         nused = sum(len(used.get(n, [])) for n in mem)
         cl.append(('no_descriptor_used_twice', nused + len(open_left) <= len(written)))
+    # exact descriptor bookkeeping per atom of every copy (template atom = rank among the copy's non-completed atoms)
+    terms = [with_order(t) for t in cfg['kw'].get('terminal_bonds', [])]
+    for fid in frag_ids:
+        mem = sorted(n for n, d in nodes.items() if tuple(d.get('fragid', [])) == fid)
+        heavy = [n for n in mem if not (aa and nodes[n].get('element') == 'H')]
+        nm = nodes[mem[0]].get('fragname')
+        if nm not in defs:
+            continue
+        written = {k: sorted(with_order(x) for x in v) for k, v in gm.parse_descriptors(defs[nm]).items()}
+        for rank, n in enumerate(heavy):
+            w = list(written.get(rank, []))
+            used_here, was_site, got_terminal = [], False, False
+            for a, b, order, bd in inter:
+                if n not in (a, b):
+                    continue
+                other = b if a == n else a
+                if nodes[n]['fragid'] < nodes[other]['fragid']:
+                    used_here.append(bd[0])
+                    was_site = True
+                    if bd[1] in terms:
+                        got_terminal = True
+                else:
+                    used_here.append(bd[1])
+            left = sorted(nodes[n].get('bonding') or [])
+            rest = list(w)
+            ok = True
+            for u in used_here:
+                if u in rest:
+                    rest.remove(u)
+                else:
+                    ok = False
+            if got_terminal:
+                want = []
+            elif was_site:
+                want = sorted(x for x in rest if x not in terms)
+            else:
+                want = sorted(rest)
+            cl.append(('descriptor_bookkeeping_exact', ok and left == want))
     # canonical numbering
     keys = mol['order']
     cl.append(('node_keys_0_to_n', sorted(keys) == list(range(len(keys)))))
